@@ -20,7 +20,10 @@ RULE = ("case 'read' = (format out of dbc, sym, kcd, json, dbf, arxml; an abstra
         "definitions/defaults/values on four levels for dbc and dbf; a lexical seed; level 0 = canonical rendering, 1 = the freedom the "
         "format allows; one described frame): the file is rendered by the independent writers in harness/lib/c15 (not by canmatrix), "
         "read with canmatrix.formats.loads, and the normal form of the frame that was read is compared with the described one on every "
-        "feature the format carries. case 'ecus' = the described ECUs are present. case 'defs' (dbc, dbf) = every described attribute definition is "
+        "feature the format carries; comments run over one to five lines where the format allows it (dbc, json, kcd, arxml), and a DBC file with CR LF "
+        "line ends has them inside such texts too. case 'ecus' = the described ECUs are present; with 'facts' = what the file says about each ECU "
+        "(comment, also over several lines; attribute values for dbc and dbf) is among what was read. case 'defs' with 'facts' (dbc, dbf) = the attribute "
+        "values on network level and the named value tables (dbc) are read as described, and no others. case 'defs' (dbc, dbf) = every described attribute definition is "
         "present on its level with its type, parameters (range, ENUM values) and default (also the empty text). cases 'sgx'/'box' = one SG_/BO_ line of such a DBC "
         "file in its varied spacing through the real reader and through the Lean tokenizers; 'num' = one number text through Decimal() "
         "and strToDec. Non-trivial = distinct case.")
@@ -74,6 +77,13 @@ def run(net, fmt, lexseed, level, enc=None):
     return res
 
 
+def line_ends(data):
+    """line ends of a text file (for the distribution in the evidence)"""
+    crlf = data.count(b"\r\n")
+    lf = data.count(b"\n") - crlf
+    return "LF" if not crlf else "CR LF" if not lf else "mixed"
+
+
 def uses_native_float(data):
     """JSON: a factor/offset written as native float (known finding: read through binary floating point)"""
     try:
@@ -121,6 +131,73 @@ def got_defs(db):
     return out
 
 
+ECU_COMMENTS = ("dbc", "dbf", "json", "arxml")      # formats whose definition gives an ECU a comment
+LEVEL_VALUES = ("dbc", "dbf")                        # formats with attribute values on ECU and network level
+VALUE_TABLES = ("dbc",)                              # formats with named value tables on network level
+
+
+def fact(ecu, what, value):
+    return "%s: %s = %s" % (ecu, what, json.dumps(value, sort_keys=True, ensure_ascii=True))
+
+
+def carrier(name):
+    """attributes the readers add themselves"""
+    return name.startswith("Gen") or name.startswith("NWM") or name.startswith("System") or name in ("BusType", "ProtocolType", "VFrameFormat", "NmNode", "NmStationAddress")
+
+
+def want_ecu_facts(net, fmt):
+    """what the file says about each ECU beyond its name, as a list of statements (the 'ecus' case compares lists of texts):
+    the comment (the empty text where none is described), every attribute value, and the names of the attributes that have a value"""
+    out = []
+    for e in net["ecus"]:
+        if fmt in ECU_COMMENTS:
+            out.append(fact(e, "comment", net.get("ecu_comments", {}).get(e) or ""))
+        if fmt in LEVEL_VALUES:
+            attrs = net.get("ecu_attrs", {}).get(e, {})
+            out.append(fact(e, "attributes with a value", sorted(attrs)))
+            for k, v in sorted(attrs.items()):
+                out.append(fact(e, "attribute " + k, v))
+    return out
+
+
+def got_ecu_facts(db, fmt):
+    out = []
+    for e in db.ecus:
+        if fmt in ECU_COMMENTS:
+            out.append(fact(e.name, "comment", e.comment or ""))
+        if fmt in LEVEL_VALUES:
+            attrs = {k: str(v) for k, v in e.attributes.items() if not carrier(k)}
+            out.append(fact(e.name, "attributes with a value", sorted(attrs)))
+            for k, v in sorted(attrs.items()):
+                out.append(fact(e.name, "attribute " + k, v))
+    return out
+
+
+def want_global(net, fmt):
+    """what the file says on network level, in the shape of the 'defs' case (level -> name -> content): the attribute values, the
+    names of the attributes that have a value, and (dbc) the named value tables"""
+    g = {"attributes with a value": sorted(net.get("gattrs", {}))}
+    for k, v in net.get("gattrs", {}).items():
+        g["value of " + k] = v
+    if fmt in VALUE_TABLES:
+        g["value tables"] = sorted(net.get("value_tables", {}))
+        for k, tab in net.get("value_tables", {}).items():
+            g["value table " + k] = {str(a): b for a, b in tab.items()}
+    return {"frame": {}, "signal": {}, "ecu": {}, "global": g}
+
+
+def got_global(db, fmt):
+    attrs = {k: str(v) for k, v in db.attributes.items() if not carrier(k)}
+    g = {"attributes with a value": sorted(attrs)}
+    for k, v in attrs.items():
+        g["value of " + k] = v
+    if fmt in VALUE_TABLES:
+        g["value tables"] = sorted(db.value_tables)
+        for k, tab in db.value_tables.items():
+            g["value table " + k] = {str(a): b for a, b in tab.items()}
+    return {"frame": {}, "signal": {}, "ecu": {}, "global": g}
+
+
 def gen(rng, tier, shard, nshards):
     total = {"quick": 1600, "thorough": 16000}[tier] // nshards + 1
     for _ in range(total):
@@ -136,8 +213,14 @@ def gen(rng, tier, shard, nshards):
             yield {"op": "read", "c": dict(base, fid=f["id"], ext=f["ext"], desc=N.expected_frame(f))}
         if fmt != "sym":          # SYM knows no ECUs
             yield {"op": "ecus", "c": dict(base, ecus=list(net["ecus"]))}
+        if fmt in ECU_COMMENTS:
+            # what the file says about the ECUs themselves: comments (also over several lines), attribute values
+            yield {"op": "ecus", "c": dict(base, facts=True, ecus=want_ecu_facts(net, fmt))}
         if any(net.get("defs", {}).get(lvl) for lvl in LEVELS):
             yield {"op": "defs", "c": dict(base, want=want_defs(net, fmt))}
+        if fmt in LEVEL_VALUES:
+            # network level: attribute values, value tables
+            yield {"op": "defs", "c": dict(base, facts=True, want=want_global(net, fmt))}
         if fmt == "dbc":
             r = run(net, fmt, lexseed, level, base.get("enc"))
             if r["text"] is not None:
@@ -172,13 +255,17 @@ def observe(case):
     if r["exc"]:
         return {"exc": r["exc"], "got": None, "errors": 0, "ecus": []}
     db = r["db"]
+    if op == "ecus" and c.get("facts"):
+        return {"exc": None, "ecus": got_ecu_facts(db, c["fmt"])}
     if op == "ecus":
         return {"exc": None, "ecus": sorted(e.name for e in db.ecus)}
+    if op == "defs" and c.get("facts"):
+        return {"exc": None, "got": got_global(db, c["fmt"])}
     if op == "defs":
         return {"exc": None, "got": got_defs(db)}
     fr = next((x for x in db.frames if x.arbitration_id.id == c["fid"] and bool(x.arbitration_id.extended) == c["ext"]), None)
     return {"exc": None, "errors": r["errors"], "got": N.got_frame(fr) if fr is not None else None,
-            "native": c["fmt"] == "json" and uses_native_float(r["text"])}
+            "native": c["fmt"] == "json" and uses_native_float(r["text"]), "eol": line_ends(r["text"]) if c["fmt"] in ("dbc", "sym", "dbf") else None}
 
 
 def project(impl):
@@ -189,6 +276,11 @@ def project(impl):
     return {}
 
 
+def lines_class(text):
+    n = text.count("\n") + 1
+    return "1 line" if n == 1 else "2 lines" if n == 2 else "3+ lines"
+
+
 def features(case, impl):
     c = case["c"]
     yield "op=" + case["op"]
@@ -196,13 +288,32 @@ def features(case, impl):
         yield "fmt=%s/level%d" % (c["fmt"], c["level"])
         if c.get("enc"):
             yield "encoding=%s/%s" % (c["fmt"], c["enc"])
+    if case["op"] in ("ecus", "defs") and c.get("facts"):
+        yield "facts:" + ("ecu" if case["op"] == "ecus" else "network")
+        texts = [t for t in c["net"].get("ecu_comments", {}).values()] if case["op"] == "ecus" else []
+        for t in texts:
+            yield "ecu comment:%s" % lines_class(t)
+        if case["op"] == "defs":
+            if c["want"]["global"].get("value tables"):
+                yield "network:value table"
+            if c["want"]["global"]["attributes with a value"]:
+                yield "network:attribute value"
+        return
     if case["op"] == "defs":
         for lvl in LEVELS:
             for name, (kind, _, default) in c["want"][lvl].items():
                 yield "define:%s%s" % (kind, "" if default is None else ("+empty-default" if default == "" else "+default"))
     if case["op"] == "read":
         d = c["desc"]
+        if impl.get("eol"):
+            yield "%s:line ends:%s" % (c["fmt"], impl["eol"])
+            if any("\n" in t for t in [d["comment"]] + [s["comment"] for s in d["signals"]]):
+                yield "%s:line ends:%s with a text over several lines" % (c["fmt"], impl["eol"])
+        if d["comment"]:
+            yield "%s:frame comment:%s" % (c["fmt"], lines_class(d["comment"]))
         for s in d["signals"]:
+            if s["comment"]:
+                yield "%s:signal comment:%s" % (c["fmt"], lines_class(s["comment"]))
             yield "%s:%s%s" % (c["fmt"], "intel" if s["little"] else "motorola", "/float" if s["float"] else "")
             if s["mux"] is not None:
                 yield c["fmt"] + ":mux"
